@@ -290,8 +290,10 @@ def main(pid, rep=None, finish=True):
             b2_bytes(rep, rnd, loop, 4000 if thorough else 800)
         if pid == "C19":
             # "the components the caller asked for" when the caller is the command line: spec/ClientCli.tla, UrlAsGiven
-            from checks import clientcli
+            from checks import clientcli, titanwire
             clientcli.main("C19", rep=rep, finish=False)
+            # ... and when the request is an upload: spec/TitanWire.tla
+            titanwire.main("C19", rep=rep, finish=False)
         rep.set("rule", "random sample of the kind product (every kind of every component swept), several spellings per kind; distinct = distinct rendered lines")
         rep.assume("kinds -> spellings tables of checks/url.py; raw control characters inside a line (removed by urlparse) are not generated")
         rep.set("exhaustive", False)
